@@ -217,7 +217,9 @@ pub fn faults(seed: u64) -> Vec<Scenario> {
             let p = P::new(prop, side.clone(), seed).concrete_prefix().fees().fault(site, n);
             let sn = if side == Buy { "long" } else { "short" };
             let mut add = |tier: Tier, name: &str, f: Box<dyn Fn()>| v.push(sc(prop, tier, &format!("c08.fault.{}.{}.{}", name, sn, tag), d, 300, 90, f));
-            let tier = if side == Buy { Tier::Quick } else { Tier::Thorough };
+            // the deepest positions of each site are thorough-only
+            let deep = (site == "cw20:execute" && n >= 4) || (site == "engine:reply" && n >= 3);
+            let tier = if side == Buy && !deep { Tier::Quick } else { Tier::Thorough };
             add(tier, "open", Box::new(t_open(p.clone())));
             add(tier, "opp", Box::new(t_open2(p.clone(), false)));
             add(Tier::Thorough, "inc", Box::new(t_open2(p.clone(), true)));
